@@ -84,7 +84,8 @@ Inductive caseT :=
 | TFile (file : str) (jd : option metaJ) (dtab : list (str * bool)) (ztab : list (str * option str))
         (obs : metaJ) (ffilters : filters) (dict : list str) (blocks : list fblock)
 | TPoolGet (size cap : Z)
-| TOwn (next : N) (evs : list oev).
+| TOwn (next : N) (evs : list oev)
+| TPooled (k : comp) (read_evs release_evs : list oev).   (* what one readPooledBlockRowData call and its release did to the pool *)
 
 Definition scan_res_eqb (a b : list str * bool) : bool := list_eqb str_eqb (fst a) (fst b) && eqb (snd a) (snd b).
 
@@ -145,6 +146,24 @@ Definition predicted_meta (file : str) (obs : metaJ) (dict : list str) (blocks :
   let st := fold_left emit descs ws_init in
   (st, final_meta st fsec (counts_from (all_entries dict blocks)), fsec).
 
+(* the pool events of a read and of its release against the program of Model/ScanPool.v, region
+   numbers and sizes taken from the observation *)
+Definition oev_eqb (a b : oev) : bool :=
+  match a, b with
+  | OGet r s c, OGet r' s' c' => (r =? r')%N && (s =? s') && (c =? c')
+  | OPut r c, OPut r' c' => (r =? r')%N && (c =? c')
+  | _, _ => false
+  end.
+
+Definition pooled_matches (k : comp) (read_evs release_evs : list oev) : bool :=
+  match read_evs with
+  | OGet c csize ccap :: rest =>
+      let '(d, dsize, dcap) := match rest with OGet d dsize dcap :: _ => (d, dsize, dcap) | _ => (c, csize, ccap) end in
+      let '(evs, r) := pooled_read k c d csize ccap dsize dcap in
+      list_eqb oev_eqb evs read_evs && list_eqb oev_eqb (pooled_release k ccap dcap r) release_evs
+  | _ => false
+  end.
+
 Definition mismatch (c : caseT) : bool :=
   match c with
   | TScan data rows ok => negb (scan_res_eqb (scan data) (rows, ok))
@@ -180,6 +199,7 @@ Definition mismatch (c : caseT) : bool :=
   | TPoolGet size cap => negb (pool_get_ok size cap)
   | TOwn _ evs =>
       existsb (fun e => match e with OGet _ size cap => negb (pool_get_ok size cap) | _ => false end) evs
+  | TPooled k rd rl => negb (pooled_matches k rd rl)
   end.
 
 (* ---- property predicates on the implementation's output ---- *)
@@ -248,6 +268,10 @@ Definition violates (c : caseT) : bool :=
       | None => false
       | Some _ => negb (existsb (fun e => match e with OGet _ size cap => negb (pool_get_ok size cap) | _ => false end) evs)
       end
+  | TPooled k rd rl =>
+      (* on its own the call must respect the discipline: nothing put that is not held, the scanned
+         buffer put exactly once and only by release *)
+      match ofirst_bad (o_init 0) (rd ++ rl) 0 with None => false | Some _ => true end
   | _ => false
   end.
 
